@@ -90,15 +90,52 @@ def untyped(t):
     return t[2]
 
 
+def public_data(o):
+    """Every data attribute readable as ``o.<name>``: the instance attributes plus public class-level data
+    (not methods, not properties) - whatever a user can read and edit through the object."""
+    d = dict(vars(o))
+    for klass in type(o).__mro__:
+        for name, v in vars(klass).items():
+            if name.startswith("_") or name in d:
+                continue
+            if callable(v) or isinstance(v, (property, staticmethod, classmethod)):
+                continue
+            d[name] = getattr(o, name)
+    return d
+
+
 def snap(o):
-    """(class name, typed snapshot of every instance attribute)."""
-    return (type(o).__name__, typed(vars(o)))
+    """(class name, typed snapshot of every data attribute readable through the object)."""
+    return (type(o).__name__, typed(public_data(o)))
 
 
 def snap_diff(a, b):
     """Instance attributes in which two snapshots differ."""
     da, db = dict(a[1][1]), dict(b[1][1])
     return [k for k in list(da) + [k for k in db if k not in da] if da.get(k) != db.get(k)]
+
+
+def _sequence_lengths(d):
+    """Lengths of the sequence-valued attributes (also one level inside dict-valued ones), ``attrs`` aside."""
+    out = []
+    for k, v in d.items():
+        if k == "attrs":
+            continue
+        if isinstance(v, dict):
+            out += _sequence_lengths(v)
+        elif isinstance(v, (list, tuple)) or (isinstance(v, np.ndarray) and v.ndim == 1):
+            out.append(len(v))
+    return out
+
+
+def _array_sizes(d):
+    out = []
+    for k, v in d.items():
+        if isinstance(v, dict):
+            out += _array_sizes(v)
+        elif isinstance(v, np.ndarray):
+            out.append(v.size)
+    return out
 
 
 def content(o):
@@ -154,7 +191,30 @@ def _resolve(s):
     return REG[s[1]] if s[0] == "ref" else copy.deepcopy(s[1])
 
 
+CLASS_LEVEL = []    # (class, name, object, saved copy): public mutable data declared in a class body
+
+
+def _register_class_level():
+    for c in vars(S).values():
+        if isinstance(c, type) and issubclass(c, S.Settings):
+            for name, v in vars(c).items():
+                if not name.startswith("_") and isinstance(v, (list, dict, np.ndarray)):
+                    CLASS_LEVEL.append((c, name, v, copy.deepcopy(v)))
+
+
 def restore_defaults():
+    for c, name, o, saved in CLASS_LEVEL:
+        if vars(c).get(name) is not o:
+            setattr(c, name, o)
+        if isinstance(o, np.ndarray):
+            if o.shape != saved.shape:
+                raise RuntimeError("a class-level array changed shape; cannot be put back in place")
+            o[...] = saved
+        elif isinstance(o, list):
+            o[:] = copy.deepcopy(saved)
+        else:
+            o.clear()
+            o.update(copy.deepcopy(saved))
     for o, saved in zip(REG, _REG_SAVED):
         if isinstance(o, np.ndarray):
             if o.shape != saved.shape:
@@ -172,6 +232,7 @@ def fresh_snaps():
 
 
 _register_defaults()
+_register_class_level()
 PRISTINE = fresh_snaps()                              # recorded before anything can mutate
 PRISTINE_CONTENT = {k: content(CLS[k]()) for k in CLASSES}
 
@@ -188,12 +249,21 @@ VALUES = {
                                     center_frequencies_in_hz=np.array([1.0, 2.0, 4.0, 8.0])),
     "sm:logrect-tuple": lambda: dict(operator="log_rectangular", bandwidth=0.1,
                                      center_frequencies_in_hz=(0.7, 3.0, 11.0)),
+    # boundary sizes of the sequence inside the dictionary: one centre frequency
+    "sm:ko-array-1": lambda: dict(operator="konno_and_ohmachi", bandwidth=40,
+                                  center_frequencies_in_hz=np.array([2.0])),
+    "sm:parzen-list-1": lambda: dict(operator="parzen", bandwidth=0.5, center_frequencies_in_hz=[3.0]),
     "none": lambda: None,
     "fft:n-none": lambda: {"n": None},
     "fft:n-65536": lambda: {"n": 65536},
     "az:array": lambda: np.arange(0, 180, 45),
     "az:list": lambda: [0.0, 90.0],
     "az:tuple": lambda: (10, 100.5),
+    # boundary sizes: exactly one azimuth (array / list / tuple), no azimuth at all
+    "az:array-1": lambda: np.array([30.0]),
+    "az:list-1": lambda: [30.0],
+    "az:tuple-1": lambda: (30,),
+    "az:array-0": lambda: np.array([]),
     "fc:list-hp": lambda: [1.0, None],
     "fc:tuple-lp": lambda: (None, 3.0),
     "fc:array-bp": lambda: np.array([0.5, 3.0]),
@@ -212,8 +282,10 @@ COMBINE = ["arithmetic_mean", "squared_average", "quadratic_mean", "root_mean_sq
            "effective_amplitude_spectrum", "geometric_mean", "total_horizontal_energy",
            "vector_summation", "maximum_horizontal_value"]
 HDTS = ["s:frequency_domain_resampling", "s:keeping_smallest_time_step", "s:keeping_majority_time_step"]
+AZ_VALUES = ["az:array", "az:list", "az:tuple", "az:array-1", "az:list-1", "az:tuple-1", "az:array-0"]
 PROC_COMMON = [("window_type_and_width", ["wtw:list", "wtw:tuple"]),
-               ("smoothing", ["sm:ko-list", "sm:parzen-array", "sm:logrect-tuple"]),
+               ("smoothing", ["sm:ko-list", "sm:parzen-array", "sm:logrect-tuple", "sm:ko-array-1",
+                              "sm:parzen-list-1"]),
                ("fft_settings", ["fft:n-none", "fft:n-65536", "none"]),
                ("handle_dissimilar_time_steps_by", HDTS)]
 PRE_COMMON = [("orient_to_degrees_from_north", ["none", "x:40.0"]),
@@ -234,9 +306,9 @@ SETS = {
                        ("azimuth_in_degrees", ["x:0.0", "x:75", "x:-45.5"])],
     "HvsrTraditionalRotDppProcessingSettings":
         PROC_COMMON + [("ppth_percentile_for_rotdpp_computation", ["x:0.0", "x:100"]),
-                       ("azimuths_in_degrees", ["az:array", "az:list", "az:tuple"])],
+                       ("azimuths_in_degrees", AZ_VALUES)],
     "HvsrAzimuthalProcessingSettings":
-        PROC_COMMON + [("azimuths_in_degrees", ["az:array", "az:list", "az:tuple"])],
+        PROC_COMMON + [("azimuths_in_degrees", AZ_VALUES)],
     "HvsrDiffuseFieldProcessingSettings": PROC_COMMON,
 }
 
@@ -538,6 +610,12 @@ class System:
         ctx = self.ctx
         ctx.count("roundtrips")
         oc = content(o)
+        for n in _sequence_lengths(vars(o)):
+            if n <= 1:
+                ctx.count(f"roundtrips_with_a_sequence_of_length_{n}")
+        for t in _array_sizes(vars(o)):
+            if t <= 1:
+                ctx.count(f"roundtrips_with_an_array_of_size_{t}")
         direct_ok, direct_snap = False, None
         op_ = proc(copy.deepcopy(o))
         ctx.count("proc_calls")
@@ -724,6 +802,8 @@ def roots(tier, seed):
     for k in CLASSES:
         out.append(dict(kind="load-over", cls=k))
         out.append(dict(kind="construct-from", cls=k))
+        for config in EDIT_CONFIGS:
+            out.append(dict(kind="inplace-edit", cls=k, config=config))
     return out
 
 
@@ -811,11 +891,13 @@ def _load_over(root, ctx):
 CONSTRUCT_VALUES = {
     "window_type_and_width": [lambda: ["tukey", 0.2]],
     "smoothing": [lambda: dict(operator="konno_and_ohmachi", bandwidth=30, center_frequencies_in_hz=list(CF_LIST)),
-                  lambda: dict(operator="parzen", bandwidth=0.5, center_frequencies_in_hz=np.array([1.0, 2.0, 4.0, 8.0]))],
+                  lambda: dict(operator="parzen", bandwidth=0.5, center_frequencies_in_hz=np.array([1.0, 2.0, 4.0, 8.0])),
+                  lambda: dict(operator="konno_and_ohmachi", bandwidth=40, center_frequencies_in_hz=np.array([2.0]))],
     "fft_settings": [lambda: {"n": 4096}],
     "filter_corner_frequencies_in_hz": [lambda: [1.0, 20.0], lambda: np.array([0.5, 3.0])],
     "azimuths_in_degrees": [lambda: np.arange(0, 180, 45), lambda: np.array([22.5, 67.5, 112.5, 157.5]),
-                            lambda: np.linspace(0.0, 150.0, 6), lambda: [0.0, 90.0]],
+                            lambda: np.linspace(0.0, 150.0, 6), lambda: [0.0, 90.0],
+                            lambda: np.array([30.0]), lambda: [30.0]],
 }
 
 
@@ -823,7 +905,7 @@ def _inplace_edits(value):
     """Every in-place edit of MUTS that applies to this value: list of (description, function(value))."""
     out = []
     if isinstance(value, (list, np.ndarray)):
-        for idx in (0, len(value) - 1):
+        for idx in sorted({0, len(value) - 1}):
             new = 0.5 if isinstance(value[idx], str) or value[idx] is None else (
                 77 if isinstance(value, np.ndarray) and value.dtype.kind in "iu" else 77.25)
             if isinstance(value[idx], str):
@@ -895,6 +977,192 @@ def _construct_from(root, ctx):
         restore_defaults()
 
 
+# ---------------------------------------------------------------------------
+# in-place edits of EVERY mutable container readable through a settings object
+#
+# "changing an attribute of one object, in place ..., never changes another object nor the defaults of
+# objects created later": the containers are found generically (every list / dict / array among the data
+# attributes readable as ``obj.<name>``, and every list / dict / array inside such a dict), the edits are
+# every in-place operation of the container type within a small menu (not only element assignment), and
+# the bystanders are one object of each of the eight classes made before the edit and one made after it.
+# Nothing is claimed about the edited object itself.
+
+EDIT_CONFIGS = ("default", "constructed-with-values", "loaded-from-one-file", "read-from-one-file")
+OBSERVABLES = ("data attributes", "attr_dict", "saved file")
+
+
+def _like(x, integer=False):
+    """A value of the kind of ``x`` that differs from every value in the menus."""
+    if isinstance(x, str):
+        return "hvmc_extra"
+    if isinstance(x, bool):
+        return not x
+    return 77 if integer else 77.25
+
+
+def _generic_edits(c):
+    """In-place operations on container ``c``: list of (description, function(container))."""
+    out = []
+    if isinstance(c, list):
+        x = _like(c[-1]) if c else 77.25
+        out.append((f".append({x!r})", lambda v: v.append(x)))
+        out.append((f".insert(0, {x!r})", lambda v: v.insert(0, x)))
+        out.append((f".extend([{x!r}, {x!r}])", lambda v: v.extend([x, x])))
+        if c:
+            x0 = _like(c[0])
+            out.append((f"[0] = {x0!r}", lambda v: v.__setitem__(0, x0)))
+            out.append((".pop()", lambda v: v.pop()))
+            out.append((".reverse()", lambda v: v.reverse()))
+        if len(c) > 1:
+            out.append((f"[-1] = {x!r}", lambda v: v.__setitem__(-1, x)))
+            out.append(("del [0]", lambda v: v.__delitem__(0)))
+            out.append((".clear()", lambda v: v.clear()))
+    elif isinstance(c, dict):
+        out.append(("['hvmc_extra'] = 1", lambda v: v.__setitem__("hvmc_extra", 1)))
+        for k, x in c.items():
+            if x is None or isinstance(x, (bool, int, float, str)):
+                n = _like(x)
+                out.append((f"[{k!r}] = {n!r}", lambda v, k=k, n=n: v.__setitem__(k, n)))
+            out.append((f".pop({k!r})", lambda v, k=k: v.pop(k)))
+        if len(c) > 1:
+            out.append((".clear()", lambda v: v.clear()))
+    elif isinstance(c, np.ndarray) and c.ndim == 1 and c.size and c.dtype.kind in "iuf":
+        x = _like(0, integer=c.dtype.kind in "iu")
+        out.append((f"[0] = {x!r}", lambda v: v.__setitem__(0, x)))
+        out.append((f".fill({x!r})", lambda v: v.fill(x)))
+        out.append((" += 1", lambda v: np.add(v, 1, out=v)))
+        if c.size > 1:
+            out.append((f"[-1] = {x!r}", lambda v: v.__setitem__(-1, x)))
+            out.append(("[:] = reversed", lambda v: v.__setitem__(slice(None), v[::-1].copy())))
+    return out
+
+
+def _containers(o):
+    """Paths of the mutable containers readable through ``o`` (attribute, then at most one dict key)."""
+    out = []
+    for name, v in public_data(o).items():
+        if isinstance(v, (list, dict, np.ndarray)):
+            out.append((name,))
+            if isinstance(v, dict):
+                out += [(name, k) for k, x in v.items() if isinstance(x, (list, dict, np.ndarray))]
+    return out
+
+
+def _at(o, path):
+    v = getattr(o, path[0])
+    for p in path[1:]:
+        v = v[p]
+    return v
+
+
+def _path_text(path):
+    return path[0] + "".join(f"[{p!r}]" for p in path[1:])
+
+
+def _observe(o, fname, with_file=True):
+    """What can be seen of a bystander: its data attributes, its attr_dict, the file it saves."""
+    out = [snap(o)]
+    try:
+        out.append(typed(o.attr_dict))
+    except Exception as e:      # noqa: BLE001
+        out.append(("raised", type(e).__name__))
+    if not with_file:
+        return tuple(out)
+    try:
+        o.save(fname)
+        with open(fname, "rb") as f:
+            out.append(f.read())
+    except Exception as e:      # noqa: BLE001
+        out.append(("raised", type(e).__name__))
+    return tuple(out)
+
+
+def _make(k, config, source_file):
+    """A settings object of class ``k`` made the way ``config`` says (fresh values every time)."""
+    if config == "default":
+        return CLS[k]()
+    if config == "constructed-with-values":
+        probe = CLS[k]()
+        return CLS[k](**{a: f[0]() for a, f in CONSTRUCT_VALUES.items() if hasattr(probe, a)})
+    if config == "loaded-from-one-file":
+        o = CLS[k]()
+        o.load(source_file[k])
+        return o
+    return read_settings_object_from_file(source_file[k])
+
+
+def _inplace_edit(root, ctx, tmp):
+    k = root["cls"]
+    fname = os.path.join(tmp, "bystander.json")
+    restore_defaults()
+    source_file = {}
+    for k2 in CLASSES:         # one file per class, written once, read by every object of the 'file' configs
+        source_file[k2] = os.path.join(tmp, f"source-{k2}.json")
+        _make(k2, "constructed-with-values", None).save(source_file[k2])
+    for config in ([root["config"]] if root.get("config") else EDIT_CONFIGS):
+        # bystanders: (class, how it is made); objects that come from a file are all of the edited
+        # object's class (one file per class) and come through both readers
+        if config.endswith("one-file"):
+            others = [(k, "loaded-from-one-file"), (k, "read-from-one-file")]
+        else:
+            others = [(k2, config) for k2 in CLASSES]
+        proto = _make(k, config, source_file)
+        for path in _containers(proto):
+            kind = type(_at(proto, path)).__name__
+            ctx.count(f"inplace_edit_containers:{k}")
+            for ei in range(len(_generic_edits(_at(proto, path)))):
+                restore_defaults()
+                earlier = {b: _make(b[0], b[1], source_file) for b in others}
+                edited = _make(k, config, source_file)
+                seen = {b: _observe(o, fname, b[0] == k) for b, o in earlier.items()}
+                target = _at(edited, path)
+                desc, edit = _generic_edits(target)[ei]
+                was = typed(target)
+                detail = dict(cls=k, edited_object_made=config,
+                              in_place_edit=f"edited.{_path_text(path)}{desc}", container=kind)
+                ctx.count("states")
+                ctx.count("transitions")
+                try:
+                    edit(target)
+                except Exception:       # noqa: BLE001
+                    ctx.violation("C15:harness-error", root, detail=detail, observed=traceback.format_exc()[-1200:],
+                                  explanation="an in-place edit of the menu does not apply to this container")
+                    continue
+                if typed(target) == was:
+                    ctx.count("inplace_edits_without_effect")
+                    continue
+                later = {b: _make(b[0], b[1], source_file) for b in others}
+                ctx.count("validated")
+                ctx.count("inplace_edit_cases")
+                ctx.count(f"inplace_edit_cases:{kind}")
+                ctx.outcome(("inplace-edit", k, config, path, desc))
+                ctx.nontrivial_case(("inplace-edit", k, config, path, desc))
+                for when, group in (("earlier", earlier), ("later", later)):
+                    for b, o in group.items():
+                        ctx.count("inplace_edit_bystander_comparisons")
+                        now = _observe(o, fname, b[0] == k)
+                        if now == seen[b]:
+                            continue
+                        rel = ("same-class" if b[0] == k else "other-class") + "-object-made-" + when
+                        attrs_changed = snap_diff(seen[b][0], now[0])
+                        old, new = dict(seen[b][0][1][1]), dict(now[0][1][1])
+                        ctx.violation(f"C15:inplace-edit:{k}:{_path_text(path)}:{rel}:shares-state", root,
+                                      detail=dict(detail, bystander_class=b[0], bystander_made=b[1],
+                                                  bystander_made_when=when + " than the edit",
+                                                  what_changed=[n for n, x, y in zip(OBSERVABLES, seen[b], now)
+                                                                if x != y],
+                                                  data_attributes_changed=attrs_changed),
+                                      expected={a: untyped(old[a]) for a in attrs_changed if a in old} or
+                                      "the same data attributes, attr_dict and saved file as shown by the object "
+                                      "made the same way before the edit",
+                                      observed={a: untyped(new[a]) for a in attrs_changed if a in new} or
+                                      {n: (list(y) if isinstance(y, tuple) and y and y[0] == "raised" else "differs")
+                                       for n, x, y in zip(OBSERVABLES, seen[b], now) if x != y},
+                                      explanation=f"an in-place edit of {_path_text(path)} of one {k} changed what "
+                                                  f"a {b[0]} made {when} ({b[1]}) shows")
+    restore_defaults()
+
+
 LOAD_OVER_CASES = [
     # (attribute held before, its value, attribute saved in the file, its value)
     ("fft_settings", {"n": 4096, "norm": "ortho"}, "fft_settings", {"n": 8192}),
@@ -927,7 +1195,10 @@ def run_root(root, ctx, tier):
             sub = Ctx(PROPERTY, tier, ctx.seed)
             tmp = tempfile.mkdtemp(prefix="hvmc-c15-")
             try:
-                _explore(root, sub, tier, tmp)
+                if root.get("kind") == "inplace-edit":
+                    _inplace_edit(root, sub, tmp)
+                else:
+                    _explore(root, sub, tier, tmp)
             except Exception:       # noqa: BLE001
                 sub.violation("C15:harness-error", root, observed=traceback.format_exc()[-3000:],
                               explanation="the harness (not hvsrpy) raised while exploring this root")
@@ -950,9 +1221,20 @@ def run_root(root, ctx, tier):
 
 def finalize(ctx, tier):
     c = ctx.counters
-    for name in ("roundtrips", "proc_results_compared", "other_object_comparisons", "fresh_default_comparisons"):
+    for name in ("roundtrips", "proc_results_compared", "other_object_comparisons", "fresh_default_comparisons",
+                 "roundtrips_with_a_sequence_of_length_1", "roundtrips_with_a_sequence_of_length_0",
+                 "roundtrips_with_an_array_of_size_1", "roundtrips_with_an_array_of_size_0",
+                 "construct_from_cases", "load_over_cases",
+                 "inplace_edit_cases:list", "inplace_edit_cases:dict", "inplace_edit_cases:ndarray",
+                 "inplace_edit_bystander_comparisons"):
         if not c.get(name):
             ctx.violation(f"C15:vacuous:{name}", None, explanation=f"counter {name} is zero: the oracle never ran")
+    for k in CLASSES:
+        if c.get(f"inplace_edit_containers:{k}", 0) < 2 * len(EDIT_CONFIGS):      # summed over the 4 roots
+            ctx.violation(f"C15:vacuous:inplace_edit_containers:{k}", None,
+                          observed=c.get(f"inplace_edit_containers:{k}", 0),
+                          explanation="fewer than two mutable containers per configuration were found on the "
+                                      "objects of this class: the generic discovery does not work")
     if len(ctx.outcomes) < 50:
         ctx.violation("C15:vacuous:outcomes", None, observed=len(ctx.outcomes),
                       explanation="fewer than 50 distinct object contents / processing results were seen")
@@ -966,14 +1248,34 @@ def describe(tier):
              "Load (same class), Read (dispatching reader), Proc((pre)process 2 tiny recordings)} on <= 3 live "
              "objects; states deduplicated on (typed attribute snapshots, aliasing signature, file contents, "
              "freshly constructed defaults); a non-trivial case is a distinct (class, content) that was saved "
-             "and read back both ways; every root runs in its own forked process; family construct-from: per class, attribute and in-place edit, an object is built from a value the caller keeps / from another object's attribute / as a sibling from one value, the edit is made through the other holder and the object must not change",
+             "and read back both ways; every root runs in its own forked process; family construct-from: per class, attribute and in-place edit, an object is built from a value the caller keeps / from another object's attribute / as a sibling from one value, the edit is made through the other holder and the object must not change; "
+             "family inplace-edit: per class, for objects made in 4 ways (default-constructed / constructed with "
+             "list, dict and array values / loaded from one file / read from that file by the dispatching reader), "
+             "EVERY list, dict and 1-d numeric array readable as a data attribute of the object (instance or "
+             "class level, found by inspection, not by name - this includes the public bookkeeping list attrs) and "
+             "every such container inside a dict-valued attribute is edited in place with every operation of a "
+             "menu (list: append, insert, extend, [0]=, [-1]=, pop, del [0], reverse, clear; dict: new key, "
+             "each scalar value replaced, each key popped, clear; array: [0]=, [-1]=, fill, += 1, reversed in "
+             "place); bystanders = one object of each of the 8 classes made before the edit and one made after "
+             "it (for the two file configurations: objects of the same class through both readers); every "
+             "bystander must show the same data attributes and attr_dict (same-class bystanders also the same "
+             "saved file bytes) as before the edit / as the object made the same way before the edit; "
+             "value menus contain sequences of boundary size: one azimuth as array / list / tuple, no azimuth "
+             "(empty array), one centre frequency as array / list",
         bounds=dict(depth="2 quick; 3 thorough with the last level restricted to Mut/Save/Load/Read/New",
-                    live_objects=MAXOBJ, classes=len(CLASSES)),
+                    live_objects=MAXOBJ, classes=len(CLASSES),
+                    inplace_edit_family="4 configurations x every container x every menu edit x 16 bystanders "
+                                        "(both tiers)",
+                    sequence_sizes_in_value_menus="0 (azimuths only), 1, 2, 3, 4, 5, 6, 36, 200"),
         exhaustive=True,
         assumptions=["instrument_transfer_function stays None (no JSON form exists for the object)",
                      "hvsrpy_version / processing_method / preprocessing_method are never assigned "
                      "(documented 'should not be changed')",
                      "Load is offered only for a file saved from an object of the same class",
+                     "the inplace-edit family claims nothing about the edited object itself (an object whose "
+                     "bookkeeping list attrs was edited is not saved or processed); in the BFS attrs is never edited",
+                     "a snapshot of an object is every data attribute readable through it: instance attributes "
+                     "and public class-level data (no methods, no properties)",
                      "Proc results are compared by bytes of frequency/amplitude (or samples, dt, orientation "
                      "for preprocessing); result meta is C09/C12's subject",
                      "states whose constructor defaults were corrupted are reported and not expanded",
